@@ -285,7 +285,10 @@ namespace GeographicLib {
       // Pi(alpha^2, k)
       _pPic = _kp2 != 0 ? _kKc + _alpha2 * rj / 3 : Math::infinity();
       // G(alpha^2, k)
-      _gGc = _kp2 != 0 ? _kKc + (_alpha2 - _k2) * rj / 3 :  rc;
+      // (for alphap2 = 0, the integral diverges; don't evaluate 0 * inf)
+      _gGc = _kp2 != 0 ?
+        (_alphap2 != 0 ? _kKc + (_alpha2 - _k2) * rj / 3 : Math::infinity()) :
+        rc;
       // H(alpha^2, k)
       _hHc = _kp2 != 0 ? _kKc - (_alphap2 != 0 ? _alphap2 * rj : 0) / 3 : rc;
     } else {
